@@ -97,6 +97,26 @@ def plan(rng, tier):
     slots = 0
     for _ in range(n):
         r = rng.random()
+        if hk and is_tree(kind) and r < 0.03 and len(g.model.d) > 6:
+            out.append(["commit"])
+            out.append(["@goleft", rng.randrange(1 << 16),
+                        rng.choice(["interior", "deactivate"])])
+            continue
+        if hk and p_cmp and is_tree(kind) and g.model.d and r < 0.10:
+            # directed: a range whose exclusive upper bound is a present key
+            # (if it is the first key of its leaf the search has to come back
+            # to the sibling subtree on the left) with everything off the
+            # path a ghost and the parents evicted during a comparison
+            ks = g.model.skeys()
+            hi = rng.choice(ks)
+            lo = rng.choice(["omit", "omit", rng.choice(ks)])
+            out.append(["sweep", "minimize", 0])
+            out.append(["@cmp", rng.randrange(1 << 16),
+                        rng.choice(["interior", "interior", "deactivate",
+                                    "some"]),
+                        ["range", rng.choice(meths), lo, hi,
+                         rng.randrange(2), 1, rng.choice(["pos", "kw"])]])
+            continue
         if r < 0.12:
             op = ranges._range_op(rng, g, meths)
             if not hk and rng.random() < 0.15:
@@ -128,7 +148,13 @@ def plan(rng, tier):
         if hk and rng.random() < p_cmp:
             op = ["@cmp", rng.randrange(1 << 16),
                   rng.choice(["deactivate", "deactivate", "minimize",
-                              "leaves", "leaves"]), op]
+                              "leaves", "leaves", "some", "some",
+                              "interior"]), op]
+            if rng.random() < 0.5:
+                # everything off the operation's path is a ghost when the
+                # in-comparison sweep comes: a ghost whose parent is evicted
+                # then has no owner left
+                out.append(["sweep", "minimize", 0])
         elif hk and op[0] in RAISABLE and rng.random() < 0.2:
             # a *failing* operation of another kind: the n-th key comparison
             # raises (on both sides); pins must be released all the same
@@ -207,6 +233,11 @@ def _sweep(side, how, arg, ctx):
         conn.sweep("deactivate", set(
             o._p_oid for o in conn.nodes()
             if _node_class(o, side.c) == "leaf"))
+    elif how == "interior":
+        # parents only: a ghost child whose parent is evicted is freed
+        conn.sweep("deactivate", set(
+            o._p_oid for o in conn.nodes()
+            if _node_class(o, side.c) != "leaf"))
     else:
         conn.sweep("minimize")
     classes = set()
@@ -271,8 +302,37 @@ def execute(plan, ctx):
     base = {"impl": impl, "kind": kind}
     evicted_any = False
     try:
-        for idx, op0 in enumerate(plan["ops"]):
+        ops_list = list(plan["ops"])
+        idx = -1
+        while idx + 1 < len(ops_list):
+            idx += 1
+            op0 = ops_list[idx]
             name = op0[0]
+            if name == "@goleft":
+                # resolved against the actual shape: a range whose exclusive
+                # upper bound is the first key of the first leaf of a
+                # NON-leftmost interior node, so that the search has to come
+                # back to the sibling subtree on its left; everything off the
+                # path a ghost; the planned sweep at EVERY comparison index
+                if not is_tree(kind):
+                    continue
+                w_ = walker.walk(B.c, dom, mapping)
+                cands = [lf for lf in w_.leaves
+                         if id(lf) in w_.subtree_firsts]
+                if not cands:
+                    ctx.probe("goleft-not-applicable")
+                    continue
+                lf = cands[op0[1] % len(cands)]
+                ki = dom.index_of(lf.__getstate__()[0][0])
+                w_ = lf = cands = None
+                extra = []
+                for n_ in range(10):
+                    extra.append(["sweep", "minimize", 0])
+                    extra.append(["@cmp", n_, op0[2],
+                                  ["range", "keys", "omit", ki, 0, 1, "kw"]])
+                ops_list[idx + 1:idx + 1] = extra
+                ctx.probe("goleft-expanded")
+                continue
             if name == "commit":
                 for s in (A, B):
                     s.conn.commit()
@@ -371,7 +431,8 @@ def execute(plan, ctx):
                 at = 1 + fault[0] % ncmp
 
                 def action():
-                    n, classes, refused = _sweep(A, fault[1], 0, ctx)
+                    n, classes, refused = _sweep(A, fault[1], fault[0] >> 3,
+                                                 ctx)
                     info["n"] += n
                     info["classes"] |= classes
                     info["refused"] += refused
